@@ -811,8 +811,10 @@ for _dotted, _nm, _extra in (
     ("numpy.expm1", "np_expm1", lambda r, a: r > -1),
     ("numpy.log1p", "np_log1p", None),
 ):
-    EXTERNAL[_dotted] = elementwise1(_uf1(_nm, _ANALYTIC_NOTE, _extra))
-    TRUSTED_NOTES[_dotted] = _ANALYTIC_NOTE
+    if _dotted not in EXTERNAL:  # expm1 / log1p keep their earlier definition through exp / log
+        EXTERNAL[_dotted] = elementwise1(_uf1(_nm, _ANALYTIC_NOTE, _extra))
+        TRUSTED_NOTES[_dotted] = _ANALYTIC_NOTE
+
 
 @ext("numpy.multiply", "product")
 def np_multiply(m, args, kw, node):
